@@ -115,20 +115,26 @@ def _zero(res, allowed):
 def run(chk):
     from harness.drivers import event_log as drv
 
-    tier = "quick" if chk.quick else "thorough"
     # ---- 1. design level: all three styles in one run (style is chosen in Init)
     graphs = {}
     dump = chk.work / "g_asis"
-    res = _tlc(chk, "asis", tier + "_asis", dump=dump if chk.quick else None)
-    if res.ok:
-        _zero(res, {"ReadMax", "WriteSeq"})
-        if chk.quick:
+    if chk.quick:
+        res = _tlc(chk, "asis", "quick_asis", dump=dump)
+        if res.ok:
+            _zero(res, {"ReadMax", "WriteSeq"})
             graphs["asis"] = tlc.load_dot(str(dump) + ".dot")
-    res = _tlc(chk, "strict", tier + "_strict")
-    if res.ok:
-        _zero(res, {"ReadMax", "WriteSeq", "Tick"})
-    if not chk.quick:
-        res = _tlc(chk, "mid_asis", "mid_asis", dump=dump)
+        res = _tlc(chk, "strict", "quick_strict")
+        if res.ok:
+            _zero(res, {"ReadMax", "WriteSeq", "Tick"})
+    else:
+        # safety, 2 subscribers / 2 writers / 4 events; liveness on 2 subscribers / 3 events and on a deep
+        # single-subscriber instance (5 events, 2 reconnects); strict variant; sqlite-style graph for replay
+        for name, allowed in (("thorough_asis", {"ReadMax", "WriteSeq"}), ("thorough_live", {"ReadMax", "WriteSeq"}),
+                              ("thorough_deep", {"ReadMax", "WriteSeq"}), ("thorough_strict", {"ReadMax", "WriteSeq", "Tick"})):
+            res = _tlc(chk, name, name)
+            if res.ok:
+                _zero(res, allowed)
+        res = _tlc(chk, "mid_sqlite", "mid_sqlite", dump=dump)
         if res.ok:
             graphs["asis"] = tlc.load_dot(str(dump) + ".dot")
     # sanity: the invariants bite
